@@ -12,7 +12,7 @@ package PKGNAME
 // G1Affine.Marshal, Element.SetBytes) are opaque functions of their argument.
 //   * prover and verifier hash exactly the same bytes
 //   * given the same digest they derive the same field element
-//verif:unwind 400
+//verif:unwind 4000
 //verif:summarize system).Solve verifSummary_Solve
 //verif:summarize pedersen.ProvingKey).Commit verifSummary_Commit
 //verif:summarize G1Jac).MultiExp verifSummary_MultiExp
